@@ -330,8 +330,76 @@ def generate(repo):
         facts['be_dynamic_level_reset'] = any(re.match(r'EXPR transit_event->dynamic_log_level = LogLevel::None', l) for l in pe[i_if:])
     except StopIteration:
         facts['be_dynamic_level_reset'] = False
+    c11_facts(repo, inc, sk, facts, notes)   # C11 block (see below)
 
     return sk, facts, notes
+
+# ===== C11 block begin (allocation / call-site formatting facts; add-only, owned by props/c11.py) =====
+def _c11_fn_bodies(text, names):
+    """bodies (brace matched, comments stripped) of the functions called `names` in a header text"""
+    text = re.sub(r'//[^\n]*', ' ', text)
+    text = re.sub(r'/\*.*?\*/', ' ', text, flags=re.S)
+    out = []
+    for m in re.finditer(r'\b(%s)\s*\(' % '|'.join(names), text):
+        # skip calls: a definition is followed by a parameter list and then '{' (possibly after noexcept / const)
+        i = m.end(); depth = 1
+        while i < len(text) and depth:
+            depth += {'(': 1, ')': -1}.get(text[i], 0); i += 1
+        j = i
+        while j < len(text) and text[j] in ' \n\r\t': j += 1
+        mm = re.match(r'(?:const\b\s*)?(?:noexcept\b\s*)?', text[j:])
+        j += mm.end()
+        if j >= len(text) or text[j] != '{':
+            continue
+        k = j + 1; depth = 1
+        while k < len(text) and depth:
+            depth += {'{': 1, '}': -1}.get(text[k], 0); k += 1
+        out.append((m.group(1), re.sub(r'\s+', ' ', text[j:k])))
+    return out
+
+def c11_facts(repo, inc, sk, facts, notes):
+    # SizeCacheVector = InlinedVector<uint32_t, N>: inline capacity, growth factor, push_back/clear skeletons
+    p = os.path.join(inc, 'core', 'InlinedVector.h')
+    docs = run_clang('#include "quill/core/InlinedVector.h"\ntemplate class quill::detail::InlinedVector<uint32_t, 12>;\n', 'InlinedVector', repo)
+    tdocs = [d for d in docs if d.get('kind') == 'ClassTemplateDecl'] or docs
+    sk['iv_push_back'] = method_skeleton(tdocs, p, 'push_back') or []
+    sk['iv_clear'] = method_skeleton(tdocs, p, 'clear') or []
+    g = [re.search(r'new_capacity = _capacity \* (\d+)\b', l) for l in sk['iv_push_back']]
+    g = [m for m in g if m]
+    facts['iv_growth_factor'] = int(g[0].group(1)) if len(g) == 1 else 0
+    docs = run_clang('#include "quill/core/ThreadContextManager.h"\n', '_conditional_arg_size_cache', repo)
+    fd = [f for d in docs for f in find_all(d, lambda n: n.get('kind') == 'FieldDecl' and n.get('name') == '_conditional_arg_size_cache')]
+    ty = fd[0].get('type', {}) if fd else {}
+    m = re.match(r'^(?:quill::)?(?:detail::)?InlinedVector<\s*(?:unsigned int|uint32_t|std::uint32_t)\s*,\s*(\d+)\s*>$', ty.get('desugaredQualType', ty.get('qualType', '')))
+    # the thread context holds the size cache by value, and it is an InlinedVector<uint32_t, N>
+    facts['iv_inline_capacity'] = int(m.group(1)) if m else 0
+    facts['tc_size_cache_by_value'] = bool(m)
+    # the size pass: which statements clear the cache
+    p = os.path.join(inc, 'core', 'Codec.h')
+    docs = run_clang('#include "quill/core/Codec.h"\n', 'compute_encoded_size_and_cache_string_lengths', repo)
+    sk['codec_size_pass'] = method_skeleton(docs, p, 'compute_encoded_size_and_cache_string_lengths') or []
+    # which codecs call libfmt, or build a std::string / container, inside compute_encoded_size / encode (the call site)
+    hdrs = ['core/Codec.h', 'DeferredFormatCodec.h', 'DirectFormatCodec.h', 'StringRef.h'] + \
+           ['std/' + f for f in sorted(os.listdir(os.path.join(inc, 'std'))) if f.endswith('.h') and f != 'WideString.h']
+    fmt_h = []; tmp_h = []
+    for h in hdrs:
+        try:
+            txt = open(os.path.join(inc, h)).read()
+        except OSError:
+            continue
+        bodies = _c11_fn_bodies(txt, ['compute_encoded_size', 'encode'])
+        if any(re.search(r'fmtquill::|\bfmt::|\bformat(?:_to|_to_n|ted_size)?\s*\(', b) for _, b in bodies):
+            fmt_h.append('quill/' + h)
+        if any(re.search(r'\.(?:w?string|u8string|native)\s*\(\s*\)|std::(?:w?string|vector|deque|list|map|set|unique_ptr|shared_ptr)\b\s*(?:<[^;{}]*>)?(?:\s*const\b)?\s*(?:\w+\s*)?[{(;=]|std::to_string|std::make_(?:unique|shared)|\bnew\b(?!\s*\()|\b(?:malloc|calloc|realloc|strdup)\s*\(', b) for _, b in bodies):
+            tmp_h.append('quill/' + h)
+    sk['c11_caller_fmt_headers'] = fmt_h
+    sk['c11_caller_temp_headers'] = tmp_h
+    # LoggerImpl::log_statement: the order  size pass / reserve / header / encode / commit, nothing else
+    p = os.path.join(inc, 'Logger.h')
+    docs = run_clang('#include "quill/Logger.h"\n', 'LoggerImpl', repo)
+    tdocs = [d for d in docs if d.get('kind') == 'ClassTemplateDecl'] or docs
+    sk['logger_log_statement'] = method_skeleton(tdocs, p, 'log_statement') or []
+# ===== C11 block end =====
 
 def emit(sk, facts, notes, out):
     L = []
